@@ -325,7 +325,7 @@ static JanetSlot compreduce(
     int32_t end = janet_v_count(c->buffer);
     for (i = 0; i < janet_v_count(labels); i++) {
         int32_t label = labels[i];
-        c->buffer[label] |= ((end - label) << 16);
+        janetc_patchjump_s(c, label, end);
     }
     janet_v_free(labels);
     return t;
